@@ -64,9 +64,12 @@ func checkKeyed(buf []byte, key uint64, off uint64) int {
 
 type pokeCallback struct{}
 
-func (pokeCallback) onEventData(buf []byte, conn eventConn) error { conn.commitRead(len(buf)); return nil }
-func (pokeCallback) onRemoteClose()                              {}
-func (pokeCallback) onLocalClose()                               {}
+func (pokeCallback) onEventData(buf []byte, conn eventConn) error {
+	conn.commitRead(len(buf))
+	return nil
+}
+func (pokeCallback) onRemoteClose() {}
+func (pokeCallback) onLocalClose()  {}
 
 var (
 	pokeOnce sync.Once
